@@ -592,9 +592,14 @@ def model_record(ex, model, harness, params):
     for kind, v in ex.inputs:
         if kind in ('bits', 'bytes'):
             s = ''
+            rnd = __import__('random').Random(len(inputs) * 7919 + len(v))
             for b in v:
-                val = model.eval(b, model_completion=True) if model is not None else False
-                s += '1' if z3.is_true(val) else '0'
+                val = model[b] if model is not None else None
+                if val is None:
+                    # unconstrained by the counterexample: any value will do; a pseudo-random one is the most generic
+                    s += '1' if rnd.random() < 0.5 else '0'
+                else:
+                    s += '1' if z3.is_true(val) else '0'
             inputs.append({'kind': kind, 'bits': s})
         elif kind == 'bool':
             val = model.eval(v, model_completion=True) if model is not None else False
